@@ -6,7 +6,7 @@ N=$(basename $D)
 W=/dev/shm/tryseed_${N}_$SD
 git -C /repo worktree add -q --detach $W HEAD 2>/dev/null || exit 2
 trap "git -C /repo worktree remove --force $W >/dev/null 2>&1" EXIT
-git -C $W apply "$D/patch.diff" 2>/dev/null || { echo "== $N seed=$SD: patch does not apply"; exit 0; }
+git -C $W apply "$D/patch.diff" 2>/dev/null || git -C $W apply -3 "$D/patch.diff" >/dev/null 2>&1 || { echo "== $N seed=$SD: patch does not apply"; exit 0; }
 cd /verif
 for p in "$@"; do
   out=/dev/shm/seedrun_${N}_${SD}_$p.txt
